@@ -205,6 +205,12 @@ theorem link_step {s : State} {a : Arr} (L : Link s a) (op : Op) :
       · show (dropAll _ a).buf.length = _
         rw [dropAll_length _ a L.wf.le, L.len]
 
+  | lookup i =>
+    obtain ⟨h1, h2, _, _⟩ := check_spec a i L.wf
+    refine ⟨check a i, rfl, h1, ?_, ?_⟩
+    · rw [h2, L.view]; rfl
+    · rw [check_length a i L.wf.le, L.len]; rfl
+
 theorem runBuf_append (a : Arr) (xs ys : List BufOp) :
     runBuf a (xs ++ ys) = (runBuf a xs).bind (fun a' => runBuf a' ys) := by
   induction xs generalizing a with
